@@ -220,11 +220,13 @@ class Origins:
 
 
 class Flow:
-    def __init__(self, facts, entries=(), stop_calls=None):
-        """entries: function ids whose parameters are roots (not resolved at callers)."""
+    def __init__(self, facts, entries=(), stop_calls=None, root_params=()):
+        """entries: function ids whose parameters are roots (not resolved at callers);
+        root_params: individual (function id, parameter index) roots."""
         self.facts = facts
         self.tw = TypeWalk(facts)
         self.entries = set(entries)
+        self.root_params = set(root_params)
         self.stop_calls = stop_calls
         self._callers = {}
         self._ctrl = {}
@@ -365,7 +367,7 @@ class Flow:
                         if j != k:
                             out.update(self.origins(p, a, False, seen, depth + 1))
         else:
-            if fn.raw["id"] in self.entries:
+            if fn.raw["id"] in self.entries or (fn.raw["id"], i) in self.root_params:
                 out.roots.add((fn.id, i))
                 return out
             cs = self.callers(fn)
